@@ -248,6 +248,7 @@ fn run_c16(args: &Args) -> i32 {
         generated: scaled(if thorough { 20_000 } else { 600 }, args.scale),
         syscall_grammars: if thorough { usize::MAX } else { (24.0 * args.scale).ceil() as usize },
         rcomp_every: if thorough { 200 } else { 100 },
+        product_stride: if args.slice { 25 } else { 1 },
     };
     let summaries = match pool::fan_out(args.workers, &|w, nw| {
         let env = make_env(args, w);
